@@ -100,10 +100,11 @@ impl Runner for BashRunner {
 
         // render the bash script
         let state_directory_str = self.state_directory.to_string_lossy();
+        // the shell expression goes in last, so that nothing that looks like
+        // a placeholder within it is being replaced
         let expression = BASH_TEMPLATE
             .replace("{state_directory}", &state_directory_str)
             .replace("{name}", name)
-            .replace("{shell_expression}", &testcase.shell_expression)
             .replace("{excluded_variables}", &BASH_EXCLUDED_VARIABLES.join("|"))
             .replace(
                 "{persist_state}",
@@ -112,7 +113,8 @@ impl Runner for BashRunner {
                 } else {
                     "1"
                 },
-            );
+            )
+            .replace("{shell_expression}", &testcase.shell_expression);
         trace!("compiled expression {}", &expression);
 
         let mut testcase = testcase.clone();
